@@ -162,6 +162,10 @@ def run_sweep(col, ctx):
                       ('month', big + '-13', None, LOW['month']), ('week', None, big + '-W01', big + '-W02'),
                       ('week', big + '-W53', None, '2020-W01'), ('datetime-local', LOW['datetime-local'], None, big + '-02-30T00:00'),
                       ('month', '1' + big + '-01', big + '-12', big + '-06')])
+        # whole numbers longer than any chunk a converter may cut them into, both signs, differing only in the last digit
+        # (chosen so that exact and double-precision ordering agree: the value lies on the allowed side of the bound)
+        batch.extend([('number', None, '-1' + '0' * 4000, '-1' + '0' * 3999 + '1'), ('number', '1' + '0' * 4000, None, '1' + '0' * 3999 + '1'),
+                      ('range', None, '-2' + '0' * 8100, '-2' + '0' * 8099 + '7'), ('number', '-1' + '0' * 3999 + '1', None, '-1' + '0' * 4000)])
         for h in range(0, 26):
             for m in ('00', '59', '60', '5'):
                 batch.append(('time', '%02d:%s' % (h, m), None, '00:00'))
